@@ -689,6 +689,45 @@ fn run_hand(text: &str) -> String {
     )
 }
 
+// ---- context_map! / math_consts_context! (fixed invocations; the macros expand to set_value / set_function chains) ----
+fn macro_dump(r: Result<Ctx, E>) -> String {
+    match r {
+        Err(e) => format!("ERR {}", error_text(&e)),
+        Ok(c) => {
+            let mut vars: Vec<(String, String)> = c.iter_variables().map(|(k, v)| (hex(k), value_text(&v))).collect();
+            vars.sort();
+            let f = match c.call_function("f", &Value::Int(1)) {
+                Ok(v) => value_text(&v),
+                Err(e) => error_text(&e),
+            };
+            format!("OK CTX{{{};off={}}} f(1)={}", vars.iter().map(|(k, v)| format!("{}={}", k, v)).collect::<Vec<_>>().join(","), c.are_builtin_functions_disabled() as u8, f)
+        },
+    }
+}
+
+fn run_macro(k: &str) -> String {
+    match k {
+        "0" => macro_dump(context_map! {}),
+        "1" => macro_dump(context_map! { "a" => int 1, "b" => float 2.5, "c" => Value::from("s"), "f" => Function::new(|a| Ok(a.clone())) }),
+        "2" => macro_dump(context_map! { "a" => int 1, "a" => float 2.5, "b" => int 3 }),
+        "3" => macro_dump(context_map! { "a" => int 1, "a" => int 2, "t" => Value::Tuple(vec![]), "t" => Value::Tuple(vec![Value::Empty]), }),
+        "4" => {
+            let r: Result<Ctx, E> = math_consts_context!();
+            macro_dump(r)
+        },
+        "5" => {
+            let r: Result<Ctx, E> = math_consts_context!(PI, E);
+            macro_dump(r)
+        },
+        "6" => {
+            let mut c = Ctx::new();
+            let r = context_map! { (&mut c) "x" => int 1, "x" => Value::from(true), "y" => int 2 };
+            format!("{} {}", unit_text(&r), macro_dump(Ok(c)))
+        },
+        _ => panic!("macro case"),
+    }
+}
+
 // ---- the public accessors and conversions of Value ----
 fn run_val(text: &str) -> String {
     use std::convert::TryFrom;
@@ -768,6 +807,7 @@ fn run_case(line: &str) -> String {
         "ITER" => run_iter(&unhex(f[2])),
         "SHOW" => run_show(&unhex(f.get(2).copied().unwrap_or(""))),
         "HAND" => run_hand(f[2]),
+        "MACRO" => run_macro(f[2]),
         "VAL" => run_val(f[2]),
         #[cfg(feature = "serde")]
         "SERDEN" => serde_cases::node_case(&unhex(f[2])),
